@@ -59,6 +59,20 @@ fn rev(o: Ordering) -> Ordering {
     o.reverse()
 }
 
+/// The comparison operators and the provided methods of `Ord` / `PartialOrd` / `PartialEq` agree
+/// with the order `want` (they can be overridden separately from `cmp`).
+fn check_operators<T: Ord + Clone + std::fmt::Debug>(what: &str, x: &T, y: &T, want: Ordering) -> CaseResult {
+    ensure!((x < y) == (want == Ordering::Less), "{}: `<` disagrees with the order {:?} on ({:?}, {:?})", what, want, x, y);
+    ensure!((x <= y) == (want != Ordering::Greater), "{}: `<=` disagrees with the order {:?} on ({:?}, {:?})", what, want, x, y);
+    ensure!((x > y) == (want == Ordering::Greater), "{}: `>` disagrees with the order {:?} on ({:?}, {:?})", what, want, x, y);
+    ensure!((x >= y) == (want != Ordering::Less), "{}: `>=` disagrees with the order {:?} on ({:?}, {:?})", what, want, x, y);
+    ensure!((x != y) == (want != Ordering::Equal), "{}: `!=` disagrees with the order {:?} on ({:?}, {:?})", what, want, x, y);
+    let (mx, mn) = (x.clone().max(y.clone()), x.clone().min(y.clone()));
+    ensure!(mx.cmp(&mn) != Ordering::Less && (want == Ordering::Equal || mx.cmp(&mn) == Ordering::Greater), "{}: max/min disagree with the order on ({:?}, {:?})", what, x, y);
+    ensure!(std::cmp::Reverse(x.clone()).cmp(&std::cmp::Reverse(y.clone())) == want.reverse(), "{}: Reverse order disagrees on ({:?}, {:?})", what, x, y);
+    Ok(())
+}
+
 /// All laws on a pair of plain labels.
 fn check_pair(a: &L, b: &L) -> CaseResult {
     let (la, lb) = (a.to_label(), b.to_label());
@@ -68,6 +82,7 @@ fn check_pair(a: &L, b: &L) -> CaseResult {
     ensure!(got == want, "Label::cmp({}, {}) = {:?}, bytewise order of deterministic encodings = {:?}", a.short(), b.short(), got, want);
     ensure!(la.partial_cmp(&lb) == Some(got), "partial_cmp != Some(cmp) for ({}, {})", a.short(), b.short());
     ensure!(lb.cmp(&la) == rev(got), "cmp not antisymmetric for ({}, {})", a.short(), b.short());
+    check_operators("Label", &la, &lb, want)?;
     let same = a == b;
     ensure!((la == lb) == same, "== disagrees with label identity for ({}, {})", a.short(), b.short());
     ensure!((got == Ordering::Equal) == same, "cmp == Equal disagrees with label identity for ({}, {})", a.short(), b.short());
@@ -140,6 +155,7 @@ fn reg_pair<T: EnumI64 + std::fmt::Debug + Clone>(a: &L, b: &L) -> Result<bool, 
     ensure!(got == want, "RegisteredLabel::cmp({}, {}) = {:?}, encodings order = {:?}", a.short(), b.short(), got, want);
     ensure!(ra.partial_cmp(&rb) == Some(got), "RegisteredLabel partial_cmp != Some(cmp) ({}, {})", a.short(), b.short());
     ensure!(rb.cmp(&ra) == got.reverse(), "RegisteredLabel cmp not antisymmetric ({}, {})", a.short(), b.short());
+    check_operators("RegisteredLabel", &ra, &rb, want)?;
     ensure!((ra == rb) == (a == b), "RegisteredLabel == disagrees with identity ({}, {})", a.short(), b.short());
     ensure!((got == Ordering::Equal) == (a == b), "RegisteredLabel Equal disagrees with identity ({}, {})", a.short(), b.short());
     Ok(true)
@@ -159,6 +175,7 @@ fn regp_pair<T: EnumI64 + WithPrivateRange + std::fmt::Debug + Clone>(a: &L, b: 
     ensure!(got == want, "RegisteredLabelWithPrivate::cmp({}, {}) = {:?}, encodings order = {:?}", a.short(), b.short(), got, want);
     ensure!(ra.partial_cmp(&rb) == Some(got), "RegisteredLabelWithPrivate partial_cmp != Some(cmp) ({}, {})", a.short(), b.short());
     ensure!(rb.cmp(&ra) == got.reverse(), "RegisteredLabelWithPrivate cmp not antisymmetric ({}, {})", a.short(), b.short());
+    check_operators("RegisteredLabelWithPrivate", &ra, &rb, want)?;
     ensure!((ra == rb) == (a == b), "RegisteredLabelWithPrivate == disagrees with identity ({}, {})", a.short(), b.short());
     ensure!((got == Ordering::Equal) == (a == b), "RegisteredLabelWithPrivate Equal disagrees with identity ({}, {})", a.short(), b.short());
     Ok(true)
